@@ -183,6 +183,7 @@ type cand struct {
 	highHash  bool
 	badMerkle bool
 	mode      string
+	sideCoin  *wire.OutPoint // an output created by a side-branch ancestor of the candidate (reorg contexts)
 }
 
 func (bs *base) coinAt(op wire.OutPoint) coin { return bs.p.utxo[op] }
@@ -451,6 +452,30 @@ var mutators = []mutator{
 	{"maturity", []int64{-1, 0, 1}, always, func(c *cand, a int64) {
 		h := c.height - c.bs.v.maturity + int32(a)
 		c.txs = append(c.txs, c.pay(1, 0, c.sp(c.cbAt(h))))
+	}},
+	// relations BETWEEN blocks: an output that an ancestor on the candidate's own branch may already have spent
+	// (valid elsewhere), an output that exists only on the other branch (base block n-1: detached in the long
+	// reorganisations), an output created by an ancestor on the candidate's own side branch (valid there)
+	{"respend", []int64{0}, always, func(c *cand, a int64) {
+		op := c.bs.fanOp(fanTrue2 + 1)
+		s := c.sp(op)
+		if _, ok := c.p.utxo[op]; !ok {
+			s = spend{op: op, c: coin{amount: c.bs.p.utxo[op].amount, script: pkScriptOf(kTrue), k: kTrue}, seq: wire.MaxTxInSequenceNum, miss: true}
+		}
+		c.txs = append(c.txs, c.pay(1, 1, s)) // lock time 1: not the same transaction as the ancestor's
+	}},
+	{"otherbranch", []int64{0}, always, func(c *cand, a int64) {
+		op := c.bs.cbOp(c.bs.n-1, kTrue)
+		s := c.sp(op)
+		if _, ok := c.p.utxo[op]; !ok {
+			s = spend{op: op, c: coin{amount: c.bs.p.utxo[op].amount, script: pkScriptOf(kTrue), k: kTrue}, seq: wire.MaxTxInSequenceNum, miss: true}
+		}
+		c.txs = append(c.txs, c.pay(1, 0, s))
+	}},
+	{"sidecoin", []int64{0}, always, func(c *cand, a int64) {
+		if c.sideCoin != nil {
+			c.txs = append(c.txs, c.pay(1, 0, c.sp(*c.sideCoin)))
+		}
 	}},
 	// many small transactions, each spending the previous one inside the block: the transaction count crosses the
 	// one-byte compact-size limit (252 / 253 / 254 in total, coinbase included) and the merkle tree gets deep and odd
